@@ -41,7 +41,7 @@ class TLCResult:
 
 _STAT = re.compile(r"(\d+) states generated, (\d+) distinct states found, (\d+) states left on queue")
 _DEPTH = re.compile(r"The depth of the complete state graph search is (\d+)")
-_COV = re.compile(r"^<(\w+) line \d+, col \d+ to line \d+, col \d+ of module (\w+)>: (\d+):(\d+)")
+_COV = re.compile(r"^<(\w+) line \d+, col \d+ to line \d+, col \d+ of module (\w+)(?: \([\d ]+\))?>: (\d+):(\d+)")
 _VIOL = [
     (re.compile(r"Error: Invariant (\S+) is violated"), None),
     (re.compile(r"Error: Action property (\S+) is violated"), None),
